@@ -11,8 +11,9 @@
 (*   hdr   PROXY header sent: none | v1 | v2 | invalid | garbage           *)
 (*         | v1unknown | v2local (valid, announcing no address)            *)
 (*   src   the source address announced in the header: ipA | ipA2 (same IP *)
-(*         as ipA, other port) | ipB | ip6                                 *)
-(*   kind  status | login                                                  *)
+(*         as ipA, other port) | ipB | ip6 | ip6c (IPv6, low 32 bits as   *)
+(*         ipA's: another address)                                         *)
+(*   kind  status | glance (status without the Ping, then hangs up) | login*)
 (***************************************************************************)
 EXTENDS Integers, Sequences, FiniteSets, TLC
 
@@ -22,7 +23,7 @@ EXTENDS Integers, Sequences, FiniteSets, TLC
 (* like a missing header.  Serving it WITHOUT asking the limiter is neither.                                                         *)
 Readings == {"peer", "invalid"}
 \* the IP (without port) behind an address label
-IpOf(l) == CASE l \in {"ipA", "ipA2"} -> "A" [] l = "ipB" -> "B" [] l = "ip6" -> "6" [] l = "p1" -> "P1" [] l = "p2" -> "P2" [] OTHER -> l
+IpOf(l) == CASE l \in {"ipA", "ipA2"} -> "A" [] l = "ipB" -> "B" [] l = "ip6" -> "6" [] l = "ip6c" -> "6c" [] l = "p1" -> "P1" [] l = "p2" -> "P2" [] OTHER -> l
 HeaderOk(proxy, hdr) == \/ (hdr \in {"v1", "v1unknown"} /\ proxy \in {"v1", "both"})
                         \/ (hdr \in {"v2", "v2local"} /\ proxy \in {"v2", "both"})
 Addressless(hdr) == hdr \in {"v1unknown", "v2local"}
